@@ -34,6 +34,9 @@ namespace vf {
         S_DQ_STABILIZE = 92,       // stabilize_left/right after loading the neighbour link
         S_DQ_STABILIZE_CAS = 93,   // stabilize before the final anchor CAS
         S_DQ_POP_RECHECK = 94,     // pop: anchor re-checked, before reading the neighbour link
+        S_RW_ADD_OP_STATE = 110,   // async_rw_mutex add_op_state before the CAS
+        S_RW_DONE_BEFORE = 111,    // done() before the exchange
+        S_RW_DONE_AFTER = 112,     // done() after the exchange
         site_max = 200
     };
 }
